@@ -21,12 +21,13 @@ SPEC = {
              "begins no earlier than the call of Engine.Run and the return of the warm-up, and token k is due no earlier than that measured instant + its offset in the profile "
              "(a clock that ran during the warm-up shows as instances released in a burst); in a quarter of the cases the engine has 1-2 further pools before / after the "
              "judged one (startup once(1-4) + optionally 1-4 more over 2-30 ms, per-instance profiles of 1-30 shots): ids are numbered from 0 within each pool and every pool "
-             "starts all its tokens; the real engine with recording doubles, 24 cases concurrently per process (sleep-bound). "
+             "starts all its tokens; the recording guns note whether their own context (GunDeps.Ctx) was done when a shot began: in a run that was neither cancelled nor "
+             "failed it never is (cutting the start short stops new instances only); the real engine with recording doubles, 24 cases concurrently per process (sleep-bound). "
              "Non-trivial = >= 2 instances over >= 2 distinct startup instants; distinct = hash of the case."),
     "floors": {"TestStartup/engine_starts_the_profile": 0.25, "TestStartup/engine_starts_the_profile_after_warmup": 0.12,
                "TestStartup/warmup_then_startup_spread_in_time": 0.05, "TestStartup/warmup_longer_than_startup_spread": 0.03,
                "TestStartup/several_pools": 0.1, "TestStartup/several_pools_ge_2_instances_each": 0.07,
-               "TestStartup/mode_long": 0.15, "TestStartup/cut_short_ammo": 0.02, "TestStartup/cut_short_creation_failed": 0.03,
+               "TestStartup/start_cut_short_gun_contexts_checked": 0.05, "TestStartup/mode_long": 0.15, "TestStartup/cut_short_ammo": 0.02, "TestStartup/cut_short_creation_failed": 0.03,
                "TestStartup/composite_startup": 0.3, "TestStartup/all_tokens_started": 0.3,
                "TestStartup/per_instance_profile_shorter_than_startup": 0.019,
                "TestStartup/provider_run_returned_early_ammo_left": 0.077,
